@@ -513,3 +513,24 @@ Proof. vm_compute. repeat split; reflexivity. Qed.
 
 Example ex_key_attributes : KEY_ATTRIBUTES = A N_attributes.
 Proof. reflexivity. Qed.
+
+(* ---- fix c17e74a: a linker with a NON-default name (701) and a submodel keyed by the DEFAULT name '_' (code 117 = k_linker_name K0):
+   BaseLinker.copy passes the original's name to the constructor, so the copy is defined, keeps the name and shows the original's
+   tree; with the default name (the code before the fix) the constructor's name-vs-identifier test (fix f5ef8bd) refuses *)
+Definition s_named : state :=
+  run_events K0 s_pre [ELinkerInit 1 [(117, 2%nat); (603, 3%nat)] 701].
+
+Example ex_linker_copy_keeps_name :
+  length (sroots s_named) = 5%nat /\
+  (let s1 := run_hevents K0 s_named [HCopyRoute RCopy 4; HCopyRoute RCopyCopy 4; HCopyRoute RDeepCopy 4] in
+   length (sroots s1) = 8%nat /\
+   nth 5 (root_views s1 7) CCut = nth 4 (root_views s1 7) CCut /\
+   nth 6 (root_views s1 7) CCut = nth 4 (root_views s1 7) CCut /\
+   nth 7 (root_views s1 7) CCut = nth 4 (root_views s1 7) CCut /\
+   own_scalar (sh s1) (nth 5 (sroots s1) O) (A N_name) = 701 /\
+   filter (fun x => Nat.leb 5 (snd (fst x))) (sharing s1) = []) /\
+  (* the constructor refuses a linker whose name is one of its submodel identifiers: no new root *)
+  length (sroots (run_events K0 s_pre [ELinkerInit 1 [(117, 2%nat); (603, 3%nat)] 117])) = 4%nat /\
+  (* l.name = <a submodel identifier> afterwards makes the object one the constructor would refuse: its copy is undefined *)
+  length (sroots (run_hevents K0 s_named [HOps 4 [OSetAttr N_name 603]; HCopyRoute RCopy 4])) = 5%nat.
+Proof. vm_compute. repeat split; reflexivity. Qed.
